@@ -20,7 +20,7 @@ except FileNotFoundError:
     pass
 
 BATCH2 = {'C10c', 'C13c', 'C03c', 'C07c', 'C11c', 'C01c'}
-BATCH3 = set()
+BATCH3 = {'C05c', 'C06c', 'C08c', 'C12c', 'C09c'}
 
 def main():
     for sid, (first, by, strengthened) in sorted(RESULTS3.items()):
